@@ -203,6 +203,16 @@ class G:
                         syms.append('<c%d:"%s">' % (j, s))
                     else:
                         syms.append("<c%d:%s>" % (j, s))
+                form = [f for f in ("named", "anon") if f in self.flags[(nt, i)]]
+                if form and "!" not in a and not plist and "fallible" not in self.flags[(nt, i)]:
+                    # the action receives its children through `<>`: named bindings whose names are in
+                    # reverse alphabetical order left to right, or anonymous selections
+                    if form[0] == "named":
+                        ss = ["<v%s%d:%s>" % (chr(ord("z") - (j % 26)), j, ('"%s"' % s) if s in self.terms else s) for j, s in enumerate(a)]
+                    else:
+                        ss = ["<%s>" % (('"%s"' % s) if s in self.terms else s) for s in a]
+                    L.append("    %s => crate::nodex!(%s; <>)," % (" ".join(ss), label))
+                    continue
                 kids = ", ".join(("err_node(el%d, er%d, c%d)" % (j, j, j)) if a[j] == "!" else ("Tree::from(c%d)" % j) for j in range(len(a)))
                 pre = "{ %s; " % "; ".join(plist) if plist else ""
                 post = " }" if plist else ""
@@ -247,6 +257,13 @@ def corpus():
         "Ss": [[], ["Ss", "St"]],
         "St": [["id", "=", "Ex", ";"], ["{", "Ss", "}"], ["if", "(", "Ex", ")", "St", "else", "St"]],
         "Ex": [["id"], ["(", "Ex", ")"]]}))
+    # an empty left-recursive list after a prefix of two symbols, reduced at end of input
+    C.append(G("decl_list", ["let", "id", "+"], {
+        "S": [["let", "id", "Items"]],
+        "Items": [[], ["Items", "+", "id"]]}))
+    C.append(G("decl_opt", ["let", "id", "=", ";"], {
+        "S": [["let", "id", "Init", "Semi"]],
+        "Init": [[], ["=", "id"]], "Semi": [[], [";"]]}))
     C.append(G("rightrec", ["a", "b"], {
         "S": [["a", "S"], ["b"]]}))
     C.append(G("two_pub", ["x", "y", "+"], {
@@ -293,6 +310,19 @@ def corpus():
         "A": [([], ["fallible"]), (["a", "A"], ["fallible"])],
         "B": [([], ["fallible"]), ["b"]]}))
     return C
+
+
+def with_forms(g, r):
+    """the same grammar with `<>`-style actions (named bindings / anonymous selections) on random alternatives"""
+    rules = {}
+    for nt, alts in g.rules.items():
+        rules[nt] = []
+        for i, a in enumerate(alts):
+            fl = sorted(g.flags[(nt, i)])
+            if a and "!" not in a and "fallible" not in fl and r.random() < 0.7:
+                fl.append(r.choice(["named", "named", "anon"]))
+            rules[nt].append((list(a), fl))
+    return G(g.name + "_forms", g.terms, rules, pubs=list(g.pubs))
 
 
 def with_inline(g, subset):
